@@ -166,6 +166,22 @@ def wl_degenerate_members(ctx, config):
         exp_model = vcase(ctx, config, pr["C"], Co, H, Ho, pr["proof"], extra, "degenerate:" + cls + (":present" if (has_zero or has_inf) else ":absent"), also_info=True)
         if has_zero or has_inf: ctx.check(exp_model is None, "model:degenerate_member_accepted_by_model", cls, config)
 
+def wl_explicit_zero_min(ctx, config):
+    """headers that carry the minimum-value field with an explicit zero (the library's prover never does): valid proofs, among them the
+    longest possible one - mantissa 64 with the field present is exactly 5134 bytes, the advertised maximum"""
+    rng = ctx.rng
+    mants = [1, 2, 3, 8] + ([64] if (ctx.shard == 0 and ctx.scale == 1.0) or not ctx.quick else [])
+    for mant in ctx.mine(mants) if not ctx.quick else mants[-1:] + [rng.choice(mants[:4])]:
+        H, Ho = gen_pair(ctx, config, rng); v = rng.randrange(1 << mant); extra = pools.rbytes(rng, rng.choice((0, 9)))
+        pr = rp.make_proof(v, rng.randrange(1, n), H, 0, mant, 0, extra, rng, small=False, force_min_flag=True)
+        if pr is None: continue
+        Co = commit_obj(ctx, config, pr["C"])
+        if Co is None: continue
+        ctx.count("explicit_zero_min_proof_bytes_max", 0); ctx.counters["explicit_zero_min_proof_bytes_max"] = max(ctx.counters.get("explicit_zero_min_proof_bytes_max", 0), len(pr["proof"]))
+        e = vcase(ctx, config, pr["C"], Co, H, Ho, pr["proof"], extra, "explicit_zero_min:mant%d:len%d" % (mant, len(pr["proof"])), also_info=True)
+        ctx.check(e is not None, "model:explicit_zero_min_rejected_by_model", "mant=%d" % mant, config)
+        vcase(ctx, config, pr["C"], Co, H, Ho, pr["proof"] + b'\x00', extra, "explicit_zero_min:trailing_byte")
+
 def wl_smallx(ctx, config):
     """digit commitment with x0 < 2^32+977 under a generator chosen by the prover: canonical encoding must verify, x0 + p must not"""
     rng = ctx.rng
@@ -219,6 +235,7 @@ def wl_garbage(ctx, config):
 def run(ctx):
     for i, config in enumerate(ctx.configs):
         wl_smallx(ctx, config)
+        wl_explicit_zero_min(ctx, config)
         wl_degenerate_members(ctx, config)
         if ctx.quick and i > 0: continue          # quick: the 32-bit-limb build only gets the coordinate-range workload
         wl_refprover(ctx, config)
